@@ -40,6 +40,33 @@ package arena
 //@   requires 0 <= a.length && a.length <= len(a.buf) && len(a.buf) <= 134217728 && 0 <= size && size <= 134217728
 //@   ensures ok: result0 != 4294967295 ==> mathint(result0) >= old(a.length) && mathint(result0) + size == a.length && a.length <= len(a.buf) && len(result1) == size && (align ==> mathint(result0) % 8 == 0 && mathint(result0) < old(a.length) + 8) && (!align ==> mathint(result0) == old(a.length))
 //@   ensures full: result0 == 4294967295 ==> a.length == old(a.length)
+// It fails only when the piece does not fit: a piece that ends exactly at the end of the buffer is served.
+//@   ensures fits: !align && old(a.length) + size <= len(a.buf) ==> result0 != 4294967295
+//@   ensures fitsaligned: align && (old(a.length) + 7) / 8 * 8 + size <= len(a.buf) ==> result0 != 4294967295
+
+// A new block is large enough for the piece it is added for (sizes up to the documented maximum block size) and empty.
+//@ func (*MemdbArena) enlarge
+//@   prop C08
+//@   requires 0 <= allocSize && allocSize <= 134217728
+//@   loop 1 invariant true
+//@   ensures grown: len(a.blocks) == old(len(a.blocks)) + 1 && a.blocks[len(a.blocks)-1].length == 0 && len(a.blocks[len(a.blocks)-1].buf) >= allocSize && len(a.blocks[len(a.blocks)-1].buf) <= 134217728
+
+//@ func (*MemdbArena) allocInLastBlock
+//@   prop C08
+//@   requires 0 <= size && size <= 134217728 && len(a.blocks) > 0 && len(a.blocks) <= 100000
+//@   requires 0 <= a.blocks[len(a.blocks)-1].length && a.blocks[len(a.blocks)-1].length <= len(a.blocks[len(a.blocks)-1].buf) && len(a.blocks[len(a.blocks)-1].buf) <= 134217728
+//@   ensures fits: (old(a.blocks[len(a.blocks)-1].length) + 7) / 8 * 8 + size <= len(a.blocks[len(a.blocks)-1].buf) ==> result0.off != 4294967295 && mathint(result0.idx) == len(a.blocks) - 1 && len(result1) == size
+//@   ensures same: len(a.blocks) == old(len(a.blocks))
+//@   ensures either: (result0 == NullAddr && result1 == nil) || (result0.off != 4294967295 && mathint(result0.idx) == len(a.blocks) - 1 && len(result1) == size)
+
+// Allocation in the arena never fails for a piece up to the documented maximum (128 MiB): exactly that size is still served.
+//@ func (*MemdbArena) Alloc
+//@   prop C08
+//@   may-panic
+//@   requires 0 <= size
+//@   typeinv nulladdr: NullAddr.idx == 4294967295 && NullAddr.off == 4294967295
+//@   typeinv blocks: len(a.blocks) < 65536 && forall i int :: 0 <= i && i < len(a.blocks) ==> 0 <= a.blocks[i].length && a.blocks[i].length <= len(a.blocks[i].buf) && len(a.blocks[i].buf) <= 134217728
+//@   ensures served: size <= 134217728 ==> !(result0.idx == 4294967295 || result0.off == 4294967295) && len(result1) == size
 
 // Checkpoints are ordered by (block count, offset in the last block).
 //@ func (*MemDBCheckpoint) LessThan
